@@ -626,7 +626,20 @@ def judge(out, prop, known):
                      note="the real binary hangs or crashes on this line")], [], []
     full, models = out["full"], out["models"][False]
     here_steps = [s for s, m in zip(full, models) if any("here" in p["cls"] for p in m["posix"])]
-    if out["died"] and not (here_steps and "herestring-nonfirst" in known):
+    # a here-string whose reader is gone before the shell writes the word (command not found, unopenable
+    # redirection, builtin): the shell's write raises SIGPIPE, which is at its default -> the shell dies (a race)
+    def reader_gone(s):
+        for st in s["stages"]:
+            if st["frm"] == "h" and (st["kind"] != "E" or any(r[1] != "&" and int(r[2:]) in s["unop"] for r in st["redirs"])
+                                     or "r" not in (st["acts"] or "").split(",")):
+                return True
+        return False
+    gone_steps = [s for s in full if s["role"] == "main" and reader_gone(s)]
+    if out["died"] and gone_steps and "herestring-reader-gone" in known and not here_steps:
+        knowns.append(("herestring-reader-gone", "the shell is killed by SIGPIPE while writing a here-string nobody reads: "
+                       + out["texts"][full.index(gone_steps[0])]))
+        return viols, knowns, acc
+    if out["died"] and not ((here_steps and "herestring-nonfirst" in known) or (gone_steps and "herestring-reader-gone" in known)):
         return [dict(kind="oracle", layer="L2", input=out["line"], observed="the shell itself died with SIGPIPE (rc %s)" % out["rc"],
                      failing_input=True, note="the shell is killed by running this line")], [], []
     if out["died"]:
